@@ -1,5 +1,6 @@
 import BpModel.All
 import BpProofs.EvoMsg
+import BpProofs.OkSound
 /-
   C08, schema evolution, END TO END: a message written with the newer schema, read and
   re-written by a program compiled against the older schema (some fields of the class removed)
@@ -418,6 +419,161 @@ theorem evolution_roundtrip_total {Sn So : Schema} {c : Nat} {dn dold : MsgD} {m
         ∧ ValEqv Sn (.msg c sl ow unk cur) (.msg c sl' true unk cur)) := by
   obtain ⟨bs, hbs⟩ := msgOk_encodable Sn _ hm
   exact ⟨bs, hbs, fun hbl => evolution_roundtrip E sl ow unk cur hm bs hbs hbl⟩
+
+/-! ### the setting, decidably -/
+
+/-- the older class drops the fields of `d` the mask does not keep -/
+def dropFields (mask : List Bool) (d : MsgD) : MsgD := { fields := keep mask d.fields, nGroups := d.nGroups }
+
+/-- the older schema obtained from `Sn` by dropping fields of class `c` -/
+def olderSchema (Sn : Schema) (c : Nat) (mask : List Bool) : Schema :=
+  match Sn[c]? with
+  | some d => Sn.set c (dropFields mask d)
+  | Option.none => Sn
+
+/-- dropping any fields of a class nothing refers to gives an instance of the setting -/
+theorem evo_olderSchema (Sn : Schema) (c : Nat) (dn : MsgD) (mask : List Bool) (hn : Sn[c]? = some dn)
+    (hfree : SchemaFree c Sn) (hm : mask.length = dn.fields.length) :
+    Evo Sn (olderSchema Sn c mask) c dn (dropFields mask dn) mask := by
+  have hcl : c < Sn.length := by
+    by_contra hc; rw [List.getElem?_eq_none (by omega)] at hn; simp at hn
+  have e : olderSchema Sn c mask = Sn.set c (dropFields mask dn) := by simp [olderSchema, hn]
+  exact { hn := hn
+          ho := by rw [e]; simp [hcl]
+          agree := fun c' hc => by rw [e, List.getElem?_set_ne (fun e => hc e.symm)]
+          free := hfree
+          mlen := hm
+          fields := rfl
+          groups := rfl }
+
+namespace EvoInst
+deriving instance DecidableEq for FieldD
+deriving instance DecidableEq for MsgD
+end EvoInst
+
+/-- `dold` keeps a sub-list of the fields of `dn` (same `FieldD` records, same relative order)
+    and declares the same number of oneof groups.  (A group may keep all, some or none of its
+    members; group indices keep their meaning.) -/
+def Older (dn dold : MsgD) : Prop :=
+  ∃ mask : List Bool, mask.length = dn.fields.length ∧ dold.fields = keep mask dn.fields ∧ dold.nGroups = dn.nGroups
+
+/-- with distinct field numbers the mask is determined: a field is kept iff the older class
+    declares its number -/
+def olderMask (dn dold : MsgD) : List Bool := dn.fields.map fun f => dold.fields.any fun g => g.num == f.num
+
+def olderB (dn dold : MsgD) : Bool :=
+  decide (dold.fields = keep (olderMask dn dold) dn.fields) && dold.nGroups == dn.nGroups
+
+theorem olderB_sound (dn dold : MsgD) (h : olderB dn dold = true) : Older dn dold := by
+  simp only [olderB, Bool.and_eq_true, decide_eq_true_eq, beq_iff_eq] at h
+  exact ⟨olderMask dn dold, by simp [olderMask], h.1, h.2⟩
+
+/-- the whole setting as one Boolean: class `c` exists in both schemas, the older class keeps a
+    sub-list of the newer fields, every other class is identical, nothing refers to class `c` -/
+def evoB (Sn So : Schema) (c : Nat) : Bool :=
+  match Sn[c]?, So[c]? with
+  | some dn, some dold =>
+    olderB dn dold && schemaFreeB c Sn && Sn.length == So.length
+      && (List.range Sn.length).all fun c' => c' == c || decide (So[c']? = Sn[c']?)
+  | _, _ => false
+
+theorem evoB_sound (Sn So : Schema) (c : Nat) (dn dold : MsgD) (hn : Sn[c]? = some dn) (ho : So[c]? = some dold)
+    (h : evoB Sn So c = true) : Evo Sn So c dn dold (olderMask dn dold) := by
+  simp only [evoB, hn, ho, Bool.and_eq_true, beq_iff_eq, List.all_eq_true, List.mem_range, Bool.or_eq_true,
+    decide_eq_true_eq] at h
+  obtain ⟨⟨⟨h1, h2⟩, h3⟩, h4⟩ := h
+  simp only [olderB, Bool.and_eq_true, decide_eq_true_eq, beq_iff_eq] at h1
+  refine { hn := hn, ho := ho, agree := ?_, free := schemaFreeB_sound c Sn h2,
+           mlen := by simp [olderMask], fields := h1.1, groups := h1.2 }
+  intro c' hc
+  by_cases hl : c' < Sn.length
+  · rcases h4 c' hl with e | e
+    · exact absurd e hc
+    · exact e
+  · rw [List.getElem?_eq_none (by omega), List.getElem?_eq_none (by omega)]
+
+/-- **schema evolution is lossless**, stated with plain hypotheses: two schemas that agree on
+    every class except `c`, where the older class keeps a sub-list of the fields (`Older`), and
+    no field of the newer schema refers to class `c` -/
+theorem evolution_roundtrip_older (Sn So : Schema) (c : Nat) (dn dold : MsgD)
+    (hn : Sn[c]? = some dn) (ho : So[c]? = some dold) (hagree : ∀ c', c' ≠ c → So[c']? = Sn[c']?)
+    (hfree : SchemaFree c Sn) (hold : Older dn dold)
+    (sl : List Val) (ow : Bool) (unk : Bytes) (cur : List (Option Nat))
+    (hm : MsgOk Sn (.msg c sl ow unk cur)) (bs : Bytes)
+    (hdump : dumpVal Sn (.msg c sl ow unk cur) = .ok bs) (hbl : bs.length < 2 ^ 64) :
+    ∃ mo bs' sl', parse So c bs = .ok mo ∧ dumpVal So mo = .ok bs'
+      ∧ parse Sn c bs' = .ok (.msg c sl' true unk cur)
+      ∧ ValEqv Sn (.msg c sl ow unk cur) (.msg c sl' true unk cur) := by
+  obtain ⟨mask, h1, h2, h3⟩ := hold
+  exact evolution_roundtrip
+    { hn := hn, ho := ho, agree := hagree, free := hfree, mlen := h1, fields := h2, groups := h3 }
+    sl ow unk cur hm bs hdump hbl
+
+/-! ### non-vacuity: a concrete evolution, evaluated on the model
+
+  Newer class 1: `a` int32 #1, `s` string #2, `sub` message(class 0) #3, `r` repeated sint32 #4,
+  oneof group 0 = { `x` bytes #5, `y` int64 #6 }, `z` optional bool #7.  The older class 1 has
+  dropped `s` (in the middle), `r`, and the oneof member `x` — which is the SELECTED member of
+  the message below.  The message also carries an unknown record (#9 varint 1 = `48 01`). -/
+namespace EvoEx
+
+def SN : Schema :=
+  [ { fields := [{ name := "x", num := 1, ty := .int32 }] },
+    { fields := [{ name := "a", num := 1, ty := .int32 },
+                 { name := "s", num := 2, ty := .string },
+                 { name := "sub", num := 3, ty := .message, kind := .user 0 },
+                 { name := "r", num := 4, ty := .sint32, repeated := true },
+                 { name := "x", num := 5, ty := .bytes, group := some 0 },
+                 { name := "y", num := 6, ty := .int64, group := some 0 },
+                 { name := "z", num := 7, ty := .bool, optional := true }], nGroups := 1 } ]
+
+def SO : Schema :=
+  [ { fields := [{ name := "x", num := 1, ty := .int32 }] },
+    { fields := [{ name := "a", num := 1, ty := .int32 },
+                 { name := "sub", num := 3, ty := .message, kind := .user 0 },
+                 { name := "y", num := 6, ty := .int64, group := some 0 },
+                 { name := "z", num := 7, ty := .bool, optional := true }], nGroups := 1 } ]
+
+def mask : List Bool := [true, false, true, false, false, true, true]
+
+def m : Val :=
+  .msg 1 [.int 5, .str [104, 105], .msg 0 [.int 7] true [] [], .list [.int 1, .int (-2)], .byt [65], .ph, .none]
+    true [0x48, 0x01] [some 4]
+
+/-- written with the newer schema -/
+def bs : Bytes := [8, 5, 18, 2, 104, 105, 26, 2, 8, 7, 34, 2, 2, 3, 42, 1, 65, 72, 1]
+/-- what the older program holds: kept slots, group 0 unselected, dropped records + `48 01` as unknown bytes -/
+def mo : Val :=
+  .msg 1 [.int 5, .msg 0 [.int 7] true [] [], .ph, .none] true [18, 2, 104, 105, 34, 2, 2, 3, 42, 1, 65, 72, 1] [Option.none]
+/-- what the older program writes: `a`, `sub`, then `s`, `r`, `x`, then `48 01` -/
+def bs' : Bytes := [8, 5, 26, 2, 8, 7, 18, 2, 104, 105, 34, 2, 2, 3, 42, 1, 65, 72, 1]
+
+-- the hypotheses of the theorem hold (all decidable)
+example : olderMask SN[1] SO[1] = mask := by decide
+example : evoB SN SO 1 = true := by decide
+example : olderSchema SN 1 mask = SO := by decide
+theorem evo : Evo SN SO 1 SN[1] SO[1] (olderMask SN[1] SO[1]) := evoB_sound SN SO 1 _ _ rfl rfl (by decide)
+theorem m_ok : MsgOk SN m := msgOkB_sound _ _ (by decide +kernel)
+
+-- the three steps, evaluated: bytes by `decide +kernel`, values by `rfl` (`Val` has no `DecidableEq`)
+example : dumpVal SN m = .ok bs := by decide +kernel
+example : parse SO 1 bs = .ok mo := by rfl
+example : dumpVal SO mo = .ok bs' := by decide +kernel
+example : parse SN 1 bs' = .ok m := by rfl
+example : ((dumpVal SN m).bind fun b => (parse SO 1 b).bind fun o => (dumpVal SO o).bind fun b' =>
+    (parse SN 1 b').bind fun m' => dumpVal SN m') = .ok bs := by decide +kernel
+-- the same, with the selected member `x` and the middle field `s` KEPT and `a` dropped: selection survives as index 3
+example : parse (olderSchema SN 1 [false, true, true, false, true, true, true]) 1 bs
+    = .ok (.msg 1 [.str [104, 105], .msg 0 [.int 7] true [] [], .byt [65], .ph, .none] true
+        [8, 5, 34, 2, 2, 3, 72, 1] [some 2]) := by rfl
+
+/-- the theorem, instantiated -/
+example : ∃ mo bs' sl', parse SO 1 bs = .ok mo ∧ dumpVal SO mo = .ok bs'
+    ∧ parse SN 1 bs' = .ok (.msg 1 sl' true [0x48, 0x01] [some 4])
+    ∧ ValEqv SN m (.msg 1 sl' true [0x48, 0x01] [some 4]) :=
+  evolution_roundtrip evo _ _ _ _ m_ok bs (by decide +kernel) (by decide)
+
+end EvoEx
 
 end Bp
 
